@@ -141,6 +141,36 @@ func ruleCompact(p *Prog, r *RuleResult, doResults, doChain bool) {
 			r.fail(pname+"#compaction", p.IPos(i), "the slot a decoded block is copied to is not a count of the delivered (non-skipped) blocks: "+why+"; Read consumes slots 0,1,2,... so with a block range that does not start on a batch boundary it returns the bytes of skipped slots")
 		}
 	})
+	// the same packing done by re-pointing the slot at the task's data instead of copying it (whether the slot may
+	// alias the task's buffer is R-BUF-FRESH's question; here only the cursor matters)
+	eachInstr(pb, func(i ssa.Instruction) {
+		st, ok := i.(*ssa.Store)
+		if !ok || !doResults {
+			return
+		}
+		src := st.Val
+		if sl, ok := src.(*ssa.Slice); ok {
+			src = sl.X
+		}
+		if fv := fieldVarOfLoad(src); fv == nil || fv != s.dataF {
+			return
+		}
+		fa, ok := st.Addr.(*ssa.FieldAddr)
+		if !ok {
+			return
+		}
+		ia, ok := fa.X.(*ssa.IndexAddr)
+		if !ok {
+			return
+		}
+		found = true
+		n++
+		if okc, why := keepCursor(ia.Index); okc {
+			r.ok(pname+": decoded blocks are handed over into consecutive slots (slot index advances only for delivered blocks)", p.IPos(i))
+		} else {
+			r.fail(pname+"#compaction", p.IPos(i), "the slot a decoded block is stored in is not a count of the delivered (non-skipped) blocks: "+why)
+		}
+	})
 	if !found && doResults {
 		r.info(pname+": no copy of result data into buffer slots found (compaction not checked)", p.Pos(pb.Pos()))
 	}
